@@ -331,6 +331,34 @@ def err_edge_of_try(body, try_call):
     return None
 
 
+def switch_err_edge(body, c):
+    """(switch bb, Err target) of a switch on the discriminant of call c's Result (through whole moves), or None"""
+    if c.dest['p'] or not c.term['dest']['ty'].startswith('std::result::Result<'):
+        return None
+    held = {c.dest['l']}
+    changed = True
+    while changed:
+        changed = False
+        for b, i, pl, rv in body.assigns():
+            if rv['k'] == 'use' and not pl['p'] and op_local(rv['op']) in held and not (op_place(rv['op']) or {}).get('p') and pl['l'] not in held:
+                held.add(pl['l']); changed = True
+    du = defuse(body)
+    for b in sorted(body.live_blocks):
+        t = body.blocks[b]['term']
+        if t['k'] != 'switch':
+            continue
+        dl = op_local(t['discr'])
+        defs = du.defs.get(dl, []) if dl is not None else []
+        if len(defs) == 1 and defs[0][2] == 'assign' and defs[0][3]['k'] == 'discr' and defs[0][3]['pl']['l'] in held and not defs[0][3]['pl']['p']:
+            listed = [v for v, _ in t['targets']]
+            for v, tb in t['targets']:
+                if v == 1:
+                    return b, tb
+            if listed == [0]:
+                return b, t['otherwise']
+    return None
+
+
 def try_of(body, c):
     """the Try::branch call that consumes call c's result (through moves), or None"""
     l = c.dest['l']
@@ -392,35 +420,105 @@ def rule_o4(em, only_kinds=('child', 'handler')):
             key = 'O4|%s|%s|#%d' % (body.name, kind, n)
             c = failure_carried(body, c)
             if c.dest['l'] == 0 and not c.dest['p'] and body.is_closure and not getattr(body, 'is_view', False):
-                # the result of a *closure* goes to whoever runs the closure (Iterator::map, fold, ..): whether a
-                # failure stops the evaluation is decided by that consumer, not visible here
+                # the result of a *closure* goes to whoever runs the closure.  When that is a std Option / Result
+                # combinator in the enclosing body (`self.get(name).map_or(Ok(None), |entry| .. func(vec![]))`), read the
+                # enclosing body with the combinator opened and decide the site there
+                o = _o4_in_parent(em, body, kind, c, key)
+                if o is not None:
+                    obs.append(o)
+                    continue
+                # otherwise (Iterator::map, fold, ..) whether a failure stops the evaluation is decided by that consumer, not visible here
                 obs.append(bad('ORDER-O4', key, '%s result is the return value of a closure: whether a failure stops the evaluation depends on what consumes the closure (not decidable from the closure alone)' % kind, c.where(), body=body.name, bb=c.bb))
                 continue
-            if c.dest['l'] == 0 and not c.dest['p']:
-                after = body.reachable_after(c.bb)
-                hit = [b for b in after if b in eff_blocks]
-                if hit:
-                    obs.append(bad('ORDER-O4', key, '%s result is returned directly but a further %s site (bb%d) is reachable after it' % (kind, eff_blocks[hit[0]], hit[0]), c.where(), body=body.name, bb=c.bb))
-                else:
-                    obs.append(ok('ORDER-O4', key, '%s result is the return value; no evaluation / call / assignment is reachable after it' % kind, c.where()))
-                continue
-            tc = try_of(body, c)
-            if tc is None:
-                obs.append(bad('ORDER-O4', key, '%s result is neither returned nor ?-propagated: a failure does not stop the evaluation' % kind, c.where(), body=body.name, bb=c.bb))
-                continue
-            ee = err_edge_of_try(body, tc)
-            if ee is None:
-                obs.append(bad('ORDER-O4', key, 'cannot find the failure edge of the ? after this %s site' % kind, c.where(), body=body.name, bb=c.bb))
-                continue
-            sb, tb = ee
+            obs.append(_o4_site(body, kind, c, eff_blocks, key))
+    if 'handler' in only_kinds:
+        # a call of a body that itself runs a handler and hands its Result back (`ctx.value(name)` runs a context
+        # function): its failure is a handler's failure one level up, and must stop the evaluation there too
+        import r_errd
+        carriers = set()
+        known_ids = {getattr(b, 'orig_id', b.id) for b in em.bodies}
+        for b in list(em.bodies) + [em.prog.by_id[i] for i in sorted(em.reach) if i in em.prog.by_id and i not in known_ids]:
+            oid = getattr(b, 'orig_id', b.id)
+            if oid not in em.eval_ids and not b.is_closure and r_errd.is_crate_result(b.locals[0]['ty']) and (em.handler_sites(b) or any(em.handler_sites(cl) for cl in em.prog.f.closures_of(b))):
+                carriers.add(oid)
+        covered = set(known_ids)
+        for b in em.bodies:
+            covered |= set(b.j.get('inlined_ids') or [])
+        for body in list(em.bodies) + [em.prog.by_id[i] for i in sorted(em.reach) if i in em.prog.by_id and i not in covered]:
+            effs = effect_sites(em, body)
+            eff_blocks = {c.bb: k for k, c in effs}
+            known = {c.bb for k, c in effs}
+            n = 0
+            for c in body.live_calls:
+                if c.ruid in carriers and c.bb not in known and c.ruid != getattr(body, 'orig_id', body.id):
+                    key = 'O4|%s|handler-call|#%d' % (body.name, n)
+                    n += 1
+                    cc = failure_carried(body, c)
+                    if cc.dest['l'] == 0 and not cc.dest['p'] and body.is_closure and not getattr(body, 'is_view', False):
+                        continue
+                    eb = dict(eff_blocks)
+                    eb[c.bb] = 'handler'
+                    obs.append(_o4_site(body, 'handler', cc, eb, key))
+    return obs
+
+
+def _o4_in_parent(em, clo, kind, c, key):
+    prog = em.prog
+    parent = prog.by_id.get(clo.j.get('parent'))
+    if parent is None or parent.is_closure:
+        return None
+    pv = prog.view(parent, keep=lambda g: True, tag='comb')
+    if pv is parent or clo.name not in (pv.j.get('inlined') or []):
+        return None
+    bo = pv.j.get('block_origin') or {}
+    sites = [nb for nb, org in bo.items() if tuple(org) == (clo.id, c.bb) and pv.blocks[int(nb)]['term']['k'] == 'call']
+    if len(sites) != 1:
+        return None
+    pc = pv.call_at(int(sites[0]))
+    if pc is None:
+        return None
+    effs = effect_sites(em, pv)
+    eff_blocks = {x.bb: k for k, x in effs}
+    eff_blocks.setdefault(pc.bb, kind)
+    o = _o4_site(pv, kind, failure_carried(pv, pc), eff_blocks, key)
+    o.what += ' [the closure read inside %s with the combinator that runs it opened]' % parent.name.split('::')[-1]
+    return o
+
+
+def _o4_site(body, kind, c, eff_blocks, key):
+    if (c.dest['l'] == 0 or (c.dest['l'] in _flows_to_return(body) and try_of(body, c) is None and switch_err_edge(body, c) is None)) and not c.dest['p']:
+        after = body.reachable_after(c.bb)
+        hit = [b for b in after if b in eff_blocks]
+        if hit:
+            return bad('ORDER-O4', key, '%s result is returned directly but a further %s site (bb%d) is reachable after it' % (kind, eff_blocks[hit[0]], hit[0]), c.where(), body=body.name, bb=c.bb)
+        return ok('ORDER-O4', key, '%s result is the return value; no evaluation / call / assignment is reachable after it' % kind, c.where())
+    tc = try_of(body, c)
+    if tc is None:
+        # no `?`: the result may be matched on directly (`r.and_then(|v| handler(v))` read with the closure opened is
+        # `match r { Ok(v) => handler(v), Err(e) => Err(e) }`): the failure edge must reach nothing but the return,
+        # and what is returned there must be a failure
+        se = switch_err_edge(body, c)
+        if se is not None:
+            sb, tb = se
             after = body.reachable_from(tb)
             hit = sorted(b for b in after if b in eff_blocks)
             if hit:
-                obs.append(bad('ORDER-O4', key, 'after the failure edge (bb%d->bb%d) of this %s site a %s site (bb%d) is still reachable' % (sb, tb, kind, eff_blocks[hit[0]], hit[0]),
-                               c.where(), body=body.name, bb=c.bb))
-            else:
-                obs.append(ok('ORDER-O4', key, 'failure edge bb%d->bb%d of the ? after this %s site reaches only drops and the return' % (sb, tb, kind), c.where()))
-    return obs
+                return bad('ORDER-O4', key, 'after the failure edge (bb%d->bb%d) of the match on this %s result a %s site (bb%d) is still reachable' % (sb, tb, kind, eff_blocks[hit[0]], hit[0]),
+                           c.where(), body=body.name, bb=c.bb)
+            if _ok_return_reachable(body, tb, set()):
+                return bad('ORDER-O4', key, 'the failure edge (bb%d->bb%d) of the match on this %s result can reach a success return: the failure is swallowed, evaluation goes on in the caller' % (sb, tb, kind), c.where(), body=body.name, bb=c.bb)
+            return ok('ORDER-O4', key, 'failure edge bb%d->bb%d of the match on this %s result reaches only drops and a failing return' % (sb, tb, kind), c.where())
+        return bad('ORDER-O4', key, '%s result is neither returned nor ?-propagated: a failure does not stop the evaluation' % kind, c.where(), body=body.name, bb=c.bb)
+    ee = err_edge_of_try(body, tc)
+    if ee is None:
+        return bad('ORDER-O4', key, 'cannot find the failure edge of the ? after this %s site' % kind, c.where(), body=body.name, bb=c.bb)
+    sb, tb = ee
+    after = body.reachable_from(tb)
+    hit = sorted(b for b in after if b in eff_blocks)
+    if hit:
+        return bad('ORDER-O4', key, 'after the failure edge (bb%d->bb%d) of this %s site a %s site (bb%d) is still reachable' % (sb, tb, kind, eff_blocks[hit[0]], hit[0]),
+                   c.where(), body=body.name, bb=c.bb)
+    return ok('ORDER-O4', key, 'failure edge bb%d->bb%d of the ? after this %s site reaches only drops and the return' % (sb, tb, kind), c.where())
 
 
 def never_ok(prog, g, depth=0):
@@ -451,6 +549,27 @@ def never_ok(prog, g, depth=0):
     return n > 0
 
 
+def _flows_to_return(body):
+    """locals whose only use is a whole move (chain) into the return place"""
+    cached = body.__dict__.get('_flows_to_ret')
+    if cached is not None:
+        return cached
+    du = defuse(body)
+    out = {0}
+    changed = True
+    while changed:
+        changed = False
+        for b, i, pl, rv in body.assigns():
+            if pl['l'] in out and not pl['p'] and rv['k'] == 'use' and rv['op']['k'] in ('move', 'copy') and not rv['op']['pl']['p']:
+                src = rv['op']['pl']['l']
+                if src not in out:
+                    uses = [u for u in du.uses.get(src, []) if not (u[1] == 'term' and body.blocks[u[0]]['term']['k'] == 'drop')]
+                    if all(body.blocks[u[0]]['stmts'][u[1]]['k'] == 'assign' and body.blocks[u[0]]['stmts'][u[1]]['pl']['l'] in out for u in uses if u[1] != 'term') and not any(u[1] == 'term' for u in uses):
+                        out.add(src); changed = True
+    body.__dict__['_flows_to_ret'] = out
+    return out
+
+
 def _ok_return_reachable(body, start, removed):
     """is a return reachable from start that is not preceded by a failure assignment, avoiding
     `removed` blocks?"""
@@ -469,6 +588,8 @@ def _ok_return_reachable(body, start, removed):
         for st in blk['stmts']:
             if st['k'] == 'assign' and st['pl']['l'] == 0 and not st['pl']['p'] and st['rv']['k'] == 'agg' and st['rv'].get('variant') == 'Err':
                 fail.add(b)
+            elif st['k'] == 'assign' and not st['pl']['p'] and st['rv']['k'] == 'agg' and st['rv'].get('variant') == 'Err' and st['pl']['l'] in _flows_to_return(body):
+                fail.add(b)      # `tmp = Err(e); .. _0 = move tmp`: the re-wrapped failure of an opened combinator
     reach = body.reachable_from(start, avoid=set(removed) | fail)
     return any(body.blocks[b]['term']['k'] == 'return' for b in reach)
 
